@@ -1,6 +1,6 @@
 \* ConnCode.tla - the repaired design (atomic claim before the create; CreatePortMapping removes the
 \* record again when the list append fails): 2 activators + revoker, expiry at any point, one write fault.
-\* EXPECTED RESULT: no error (112,737 states generated / 42,433 distinct).
+\* EXPECTED RESULT: no error (120,785 states generated / 46,571 distinct).
 \* AtMostOneMappingR / FailedLeavesNoneR = the strict invariants modulo the residual deviation "rbLost"
 \* (expiry between check and Activate() AND the rollback's own record delete fails); with CanExpire = FALSE
 \* or MaxFault = 0 the strict AtMostOneMapping / FailedLeavesNone hold (that is what ./check C06 verifies).
@@ -17,9 +17,12 @@ CONSTANTS
   ClaimLocal = FALSE
   SameAs = {}
   Reclaim = FALSE
+  ResetOnFail = FALSE
+  CanTick = FALSE
+  ShortClaim = FALSE
   Emit = FALSE
 INIT Init
 NEXT Next
 VIEW view
-INVARIANTS TypeOK AtMostOneMappingR AtMostOneSuccess SuccessWasValid FailedLeavesNoneR FieldsOK NoLegacyDev ClaimExcludes
+INVARIANTS TypeOK NoActivationAfterDeath AtMostOneMappingR AtMostOneSuccess SuccessWasValid FailedLeavesNoneR FieldsOK NoLegacyDev ClaimExcludes
 CHECK_DEADLOCK FALSE
